@@ -92,7 +92,12 @@ def w_parts(tier):
 
 
 def plan(tier, seed):
-    return r_parts(tier) + w_parts(tier)
+    extra = [Part(H, "guard_key", {}, 300, 60, "key accepted <=> non-empty, printable ASCII without '@' (attributes: also no '/', not the SUBST key)")]
+    # the same overlay code under the IH5MFRecord class
+    ob = "(W) through IH5MFRecord"
+    for op, p, q in (("setitem", "a/x", None), ("delitem", "a", None), ("create_group", "b/c", None), ("copy", "a", "b"), ("attr_set", "a", None)):
+        extra.append(Part(H, "W", {"n": 2, "u": "ax_k", "op": op, "p": p, "q": q, "rcls": "mf"}, 600, 60, ob, weight=2))
+    return r_parts(tier) + w_parts(tier) + extra
 
 
 def confirm(part, kwargs, native):
